@@ -98,3 +98,16 @@ where
         }
     }
 }
+
+/// Await any fallible engine future, turning a panic into an error string.
+pub async fn guarded_result<T, F>(f: F) -> Result<T, String>
+where
+    F: Future<Output = Result<T, QueryError>>,
+{
+    use futures::FutureExt;
+    match std::panic::AssertUnwindSafe(f).catch_unwind().await {
+        Ok(Ok(v)) => Ok(v),
+        Ok(Err(e)) => Err(e.to_string()),
+        Err(p) => Err(format!("panicked: {}", p.downcast_ref::<String>().cloned().or_else(|| p.downcast_ref::<&str>().map(|s| s.to_string())).unwrap_or_default())),
+    }
+}
